@@ -101,7 +101,9 @@ Inductive event :=
 | Send (i : nat)
     (* loop i sends the neighbour advertisement for the next address of its list, outside the lock *)
 | RxRA (src_ip eth_src p : bytes) (host_known : bool)
-| RxOther (p : bytes).      (* any other ICMPv6 message through ProcessPacket: touches none of this state *)
+| RxOther (p : bytes)       (* any other ICMPv6 message through ProcessPacket: touches none of this state *)
+| Tick.                     (* ANOTHER Handler6 of the same process receives a router advertisement: the rate limiter
+                               `repeat` is a package-level variable (icmp6.go:94), shared by every handler *)
 
 Inductive out :=
 | OStage (s : stage) (e : option err)
@@ -255,6 +257,7 @@ Definition step (c : config) (st : state) (e : event) : state * out :=
   | Send i => send c st i
   | RxRA s m p hk => rx_ra st s m p hk
   | RxOther _ => (st, ONone)
+  | Tick => (mkSt (hunt st) (loops st) (routers st) (defrouter st) (repeat_ st + 1)%Z (closed st), ONone)
   end.
 
 (* run a history, collecting (state before the event, event, output) *)
